@@ -32,9 +32,7 @@ def load_units():
         p = os.path.join(base, name, 'unit.py')
         if not os.path.exists(p):
             continue
-        spec = importlib.util.spec_from_file_location('unit_' + name, p)
-        mod = importlib.util.module_from_spec(spec)
-        spec.loader.exec_module(mod)
+        mod = unitapi.sibling(name)
         for u in getattr(mod, 'UNITS', [getattr(mod, 'UNIT', None)]):
             if u is not None:
                 u.module = mod
@@ -424,7 +422,7 @@ def write_evidence(prop, args, units, results, violations, knowns, undecided, se
         for it in r.get('items', []):
             if prop not in getattr(u, 'fn_props', {}).get(it['key'], u.props):
                 continue
-            if it.get('contract') or it.get('lifted'):
+            if (it.get('contract') or it.get('lifted')) and not it.get('stub_of'):
                 functions.append(dict(unit=r['unit'], function=it['key'], file=it['file'],
                                       lines=[it['line_start'], it['line_end']], sha256=it['sha256'],
                                       lifted=it.get('lifted'),
